@@ -1319,12 +1319,13 @@ func (client *client) disconnectHandler(dis *packets.Disconnect) *codes.Error {
 				},
 			}
 		}
-		if sess.ExpiryInterval == 0 && disExpiry != 0 {
+		// the session may be gone already (taken over or terminated while this DISCONNECT was on its way)
+		if sess != nil && sess.ExpiryInterval == 0 && disExpiry != 0 {
 			return &codes.Error{
 				Code: codes.ProtocolError,
 			}
 		}
-		if disExpiry != 0 {
+		if sess != nil && disExpiry != 0 {
 			err := client.server.sessionStore.SetSessionExpiry(sess.ClientID, disExpiry)
 			if err != nil {
 				zaplog.Error("fail to set session expiry",
